@@ -101,6 +101,13 @@ def case_1d(ctx, index, rng: random.Random):
             return "1d.gap.int_dtype.nan_missed"
         return None
 
+    # values may arrive as float32 (scalars and arrays): every path sees the same, exactly representable, values
+    vtype = float
+    if rng.random() < 0.15:
+        vtype = np.float32
+        data = [float(np.float32(v)) for v in data]
+        desc["value_type"] = "float32"
+        desc["data"] = gen.hexlist(np.asarray(data, dtype=float))
     finals = {}
     # (a) construction
     try:
@@ -109,7 +116,7 @@ def case_1d(ctx, index, rng: random.Random):
             kw["dtype"] = dtype
         if wts is not None:
             kw["weights"] = np.asarray(wts)
-        ha = physt.h1(np.asarray(data, dtype=float), bins_arr.copy(), **kw)
+        ha = physt.h1(np.asarray(data, dtype=vtype), bins_arr.copy(), **kw)
         finals["construct"] = _numeric_state(ha, True)
     except Exception as e:
         rec.mon("C03.history.equiv")
@@ -122,7 +129,7 @@ def case_1d(ctx, index, rng: random.Random):
     via_lshift = wts is None and rng.random() < 0.2
     try:
         for i in order:
-            v = data[i]
+            v = data[i] if vtype is float else np.float32(data[i])
             if via_lshift:
                 hb << v
             elif wts is None:
@@ -143,7 +150,7 @@ def case_1d(ctx, index, rng: random.Random):
         for a, b in _partition(rng, n):
             chunk = [data[i] for i in perm[a:b]]
             cw = None if wts is None else [wts[i] for i in perm[a:b]]
-            vals = np.asarray(chunk, dtype=float) if rng.random() < 0.7 else list(chunk)
+            vals = np.asarray(chunk, dtype=vtype) if (rng.random() < 0.7 or vtype is not float) else list(chunk)
             if cw is None:
                 hc.fill_n(vals)
             else:
